@@ -3,13 +3,13 @@
 package main
 
 import (
-	"sync/atomic"
 	"bytes"
 	"encoding/json"
 	"fmt"
 	"runtime"
 	"strconv"
 	"sync"
+	"sync/atomic"
 	"time"
 
 	fpgo "github.com/TeaEntityLab/fpGo/v2"
@@ -332,6 +332,59 @@ func c11Conc(w *ndWriter) int {
 				e.h["h1"].Close()
 				e.h["h2"].Close()
 			}
+		}
+	}
+	// two compositions branching off the same prefix  p.FlatMap(f1)...FlatMap(fk): left = p.FlatMap(L), right = p.FlatMap(R), for every
+	// prefix depth k = 0..9; each evaluates to ITS OWN composition (built left first / right first, evaluated in both orders)
+	for k := 0; k <= 9; k++ {
+		for _, leftFirst := range []bool{true, false} {
+			calls := []int{}
+			p := fpgo.MonadIONewGenerics(func() int { calls = append(calls, 0); return 1000 })
+			for j := 1; j <= k; j++ {
+				j := j
+				p = p.FlatMap(func(v int) *fpgo.MonadIODef[int] { calls = append(calls, j); return fpgo.MonadIOJustGenerics(v + 1) })
+			}
+			mkL := func() *fpgo.MonadIODef[int] {
+				return p.FlatMap(func(v int) *fpgo.MonadIODef[int] {
+					calls = append(calls, 100)
+					return fpgo.MonadIOJustGenerics(v + 100)
+				})
+			}
+			mkR := func() *fpgo.MonadIODef[int] {
+				return p.FlatMap(func(v int) *fpgo.MonadIODef[int] {
+					calls = append(calls, 200)
+					return fpgo.MonadIOJustGenerics(v + 200)
+				})
+			}
+			var l, r *fpgo.MonadIODef[int]
+			if leftFirst {
+				l, r = mkL(), mkR()
+			} else {
+				r, l = mkR(), mkL()
+			}
+			out := c11ConcOut{Part: "branch", N: k, ObOn: "nil", SubOn: "nil", NewSub: "-", Kind: "ok", Effects: []c11Del{}, Delivered: []c11Del{}}
+			func() {
+				defer func() {
+					if recover() != nil {
+						out.Kind = "panic"
+					}
+				}()
+				calls = nil
+				lv := l.Eval()
+				lcalls := append([]int{}, calls...)
+				calls = nil
+				rv := r.Eval()
+				rcalls := append([]int{}, calls...)
+				out.Delivered = []c11Del{{lv, "left"}, {rv, "right"}}
+				for _, c := range lcalls {
+					out.Effects = append(out.Effects, c11Del{c, "left"})
+				}
+				for _, c := range rcalls {
+					out.Effects = append(out.Effects, c11Del{c, "right"})
+				}
+			}()
+			w.write(out)
+			n++
 		}
 	}
 	// reconfiguration while the effect of an earlier Subscribe is still running: that subscription keeps ITS handlers
